@@ -37,7 +37,9 @@ RULE = ("documents: 0-12 hit objects over lanes 1-10 with StartTime/KeySounds/La
         "natively, with from_dict, or converted (OsuToQua, SMToQua, BMSToQua, O2JToQua) from source charts that first went through "
         "0-3 ordinary operations (after/before/between, boolean mask, reverse sort, sort, append, stack edit, rate - they leave "
         "non-default row labels), offsets from integers, dyadic rationals, "
-        "arbitrary doubles and values next to a whole millisecond; claims read/write/rw/wr; non-trivial = at least one "
+        "arbitrary doubles and values next to a whole millisecond; every text (given or written) also goes through the text-layer "
+        "model: emitQua(tree of the model's document, record keys in the frame's column order) == write() text for every entry "
+        "of the scalar class, parseQua(text) == yaml.safe_load(text) wherever parseQua accepts; claims read/write/rw/wr; non-trivial = at least one "
         "hit object or tempo point and (an omitted key, a hold, a fractional time, a quoted string, or a converted chart)")
 ASSUMPTIONS = [
     "the format's defaults for omitted keys are the ones reamberPy's reader documents (StartTime 0, KeySounds [], Bpm 120, "
@@ -48,7 +50,13 @@ ASSUMPTIONS = [
     "unknown per-object keys (pandas pass-through columns), YAML null / non-numeric values in numeric keys and NaN offsets are "
     "outside the modelled domain",
 ]
-TRUSTED_EXTRA = ["PyYAML safe_load / CDumper (the model starts at the parsed document; text is exercised, not modelled)"]
+TRUSTED_EXTRA = ["PyYAML safe_load / libyaml CDumper outside the modelled text dialect (Model/QuaText.lean: block style, one-line plain / "
+                 "single-quoted scalars, lists of mappings two deep); inside it emitQua is compared character for character with "
+                 "write() (whole text when every entry is in the class, else entry by entry) and parseQua with yaml.safe_load "
+                 "(whole text and every top-level entry) on every case; double-quoted, folded and multi-line scalars, flow style: "
+                 "exercised, not modelled",
+                 "CPython repr(float) (shortest round-trip decimal) and float(str): the model takes the lexeme; the harness checks "
+                 "that the exact value of every float lexeme rounds to the double PyYAML returned"]
 
 KEY_ATTR = [("AudioFile", "audio_file"), ("SongPreviewTime", "song_preview_time"), ("BackgroundFile", "background_file"),
             ("BannerFile", "banner_file"), ("Genre", "genre"),
@@ -1221,7 +1229,7 @@ def text_write_check(drv, model_doc, text, pdoc, wire, tags, detail):
                 tags.append("text-entries-in-class:%d/4" % (4 * n_in // max(1, len(texts))))
         else:
             in_class = True
-            tags.append("text-in-class")
+            tags.append("text-in-class" if r["nodup"] else "text-in-class-dup-keys")     # WFTree of parse_emit_partial
             if r["text"] != text:
                 agree = False
                 detail["text_diff"] = _first_diff(text, r["text"])
@@ -1229,7 +1237,7 @@ def text_write_check(drv, model_doc, text, pdoc, wire, tags, detail):
                 agree = False
                 detail["text_tree_doc"] = "treeDoc of the emitted tree is not the model's document"
     tags.append("written")
-    if not text_parse_check(drv, text, pdoc, wire, tags, detail, must_parse=in_class and agree):
+    if not text_parse_check(drv, text, pdoc, wire, tags, detail, must_parse=in_class and agree and r["nodup"]):
         agree = False
     tags.remove("written")
     return agree
